@@ -89,7 +89,7 @@ def death_violation(acc, pid, death, flavour, inflight, what, setup=()):
     return key
 
 
-def run_resilient(w, setup, lines, timeout=120.0, max_deaths=20):
+def run_resilient(w, setup, lines, timeout=120.0, max_deaths=20, stop_on_death=False):
     """Run `setup` then `lines`; when the worker dies or hangs on line i, put
     the Death/Timeout object at position i, restart, replay `setup`, and go on
     with line i+1.  Returns a list parallel to `lines`."""
@@ -113,6 +113,8 @@ def run_resilient(w, setup, lines, timeout=120.0, max_deaths=20):
         out[i + len(got)] = end
         i = i + len(got) + 1
         deaths += 1
+        if stop_on_death:
+            break       # the rest of a history makes no sense without its state
         if deaths > max_deaths:
             for k in range(i, len(lines)):
                 out[k] = pool.Timeout(k)   # give up: inconclusive
